@@ -709,4 +709,187 @@ theorem genDss_spec (right : Bool) (cands : List Cand) (cdf : List F) (valid : N
 
 end gen
 
+section from_
+set_option linter.unusedSectionVars false
+variable {F : Type} [Add F] [Div F] [LE F] [DecidableLE F] [LT F] [DecidableLT F] [OfNat F 0]
+
+/-- the row was selected by a deviate with property `U` -/
+def FromDev (right : Bool) (cdf : List F) (U : F → Prop) (rc : Nat × Cand) : Prop :=
+  ∃ u, U u ∧ rc.1 = search right cdf u
+
+theorem drawRows_from (right : Bool) (cands : List Cand) (cdf : List F) (U : F → Prop) :
+    ∀ (us : List F) (rows : List (Nat × Cand)), drawRows right cands cdf us = some rows →
+      (∀ u ∈ us, U u) → ∀ rc ∈ rows, FromDev right cdf U rc
+  | [], rows, h, _ => by
+    simp only [drawRows, Option.some.injEq] at h; subst h; simp
+  | u :: us, rows, h, hU => by
+    simp only [drawRows] at h
+    split at h
+    · exact absurd h (by simp)
+    · rename_i c hc
+      simp only [Option.map_eq_some_iff] at h
+      obtain ⟨t, ht, rfl⟩ := h
+      intro rc hrc
+      rcases List.mem_cons.mp hrc with rfl | hrc
+      · exact ⟨u, hU u (by simp), rfl⟩
+      · exact drawRows_from right cands cdf U us t ht (fun v hv => hU v (by simp [hv])) rc hrc
+
+theorem redraw_from (right : Bool) (cands : List Cand) (cdf : List F) (valid : Nat → Bool) (ds shg need : Nat)
+    (U : F → Prop) :
+    ∀ (fuel : Nat) (acc : List (Nat × Cand)) (us : List F) (res : List (Nat × Cand) × List F),
+      redraw right cands cdf valid ds shg need fuel acc us = some res →
+      (∀ u ∈ us, U u) → (∀ rc ∈ acc, FromDev right cdf U rc) →
+      (∀ rc ∈ res.1, FromDev right cdf U rc) ∧ (∀ u ∈ res.2, U u)
+  | 0, _, _, _, h, _, _ => by simp [redraw] at h
+  | fuel + 1, acc, us, res, h, hU, hacc => by
+    simp only [redraw] at h
+    by_cases h1 : need ≤ acc.length
+    · rw [if_pos h1] at h
+      simp only [Option.some.injEq] at h
+      subst h
+      exact ⟨hacc, hU⟩
+    · rw [if_neg h1] at h
+      by_cases h2 : us.length < need - acc.length
+      · rw [if_pos h2] at h; exact absurd h (by simp)
+      · rw [if_neg h2] at h
+        split at h
+        · exact absurd h (by simp)
+        · rename_i drawn hd
+          have hdr := drawRows_from right cands cdf U _ _ hd (fun u hu => hU u (List.mem_of_mem_take hu))
+          exact redraw_from right cands cdf valid ds shg need U fuel _ _ res h
+            (fun u hu => hU u (List.mem_of_mem_drop hu))
+            (by
+              intro rc hrc
+              rcases List.mem_append.mp hrc with hrc | hrc
+              · exact hacc rc hrc
+              · exact hdr rc (List.mem_of_mem_filter hrc))
+
+theorem genGroup_from (right : Bool) (cands : List Cand) (cdf : List F) (valid : Nat → Bool) (ds shg : Nat)
+    (U : F → Prop) (rows : List (Nat × Cand)) (us : List F) (res : List (Nat × Cand) × List F)
+    (hrows : ∀ rc ∈ rows, FromDev right cdf U rc) (hU : ∀ u ∈ us, U u)
+    (h : genGroup right cands cdf valid ds shg rows us = some res) :
+    (∀ rc ∈ res.1, FromDev right cdf U rc) ∧ (∀ u ∈ res.2, U u) := by
+  unfold genGroup at h
+  simp only at h
+  by_cases hk : rows.countP (fun rc => !valid rc.1) = 0
+  · rw [if_pos hk] at h
+    simp only [Option.some.injEq] at h
+    subst h
+    exact ⟨hrows, hU⟩
+  · rw [if_neg hk] at h
+    split at h
+    · exact absurd h (by simp)
+    · rename_i new us' hr
+      simp only [Option.map_eq_some_iff] at h
+      obtain ⟨out, hout, rfl⟩ := h
+      obtain ⟨r1, r2⟩ := redraw_from right cands cdf valid ds shg _ U _ [] us (new, us') hr hU (by simp)
+      obtain ⟨_, o2⟩ := replaceInvalid_spec valid rows new out hout
+      refine ⟨?_, r2⟩
+      intro rc hrc
+      rcases o2 rc hrc with ⟨hm, _⟩ | hm
+      · exact hrows rc hm
+      · exact r1 rc hm
+
+theorem genShgs_from (right : Bool) (cands : List Cand) (cdf : List F) (valid : Nat → Bool) (ds : Nat)
+    (U : F → Prop) (mrows : List (Nat × Cand)) (hm : ∀ rc ∈ mrows, FromDev right cdf U rc) :
+    ∀ (gs : List Nat) (us : List F) (res : List (Nat × Cand) × List F),
+      genShgs right cands cdf valid ds mrows gs us = some res → (∀ u ∈ us, U u) →
+      (∀ rc ∈ res.1, FromDev right cdf U rc) ∧ (∀ u ∈ res.2, U u)
+  | [], us, res, h, hU => by
+    simp only [genShgs, Option.some.injEq] at h; subst h; exact ⟨by simp, hU⟩
+  | g :: gs, us, res, h, hU => by
+    simp only [genShgs] at h
+    split at h
+    · exact absurd h (by simp)
+    · rename_i out us' hg
+      split at h
+      · exact absurd h (by simp)
+      · rename_i rest us'' hrest
+        simp only [Option.some.injEq] at h
+        subst h
+        obtain ⟨g1, g2⟩ := genGroup_from right cands cdf valid ds g U _ us (out, us')
+          (fun rc hrc => hm rc (List.mem_of_mem_filter hrc)) hU hg
+        obtain ⟨r1, r2⟩ := genShgs_from right cands cdf valid ds U mrows hm gs us' (rest, us'') hrest g2
+        refine ⟨?_, r2⟩
+        intro rc hrc
+        rcases List.mem_append.mp hrc with hrc | hrc
+        · exact g1 rc hrc
+        · exact r1 rc hrc
+
+theorem genDss_from (right : Bool) (cands : List Cand) (cdf : List F) (valid : Nat → Bool)
+    (U : F → Prop) (mrows : List (Nat × Cand)) (hm : ∀ rc ∈ mrows, FromDev right cdf U rc) :
+    ∀ (dl : List Nat) (us : List F) (res : List (Nat × List (Nat × Cand)) × List F),
+      genDss right cands cdf valid mrows dl us = some res → (∀ u ∈ us, U u) →
+      (∀ e ∈ res.1, ∀ rc ∈ e.2, FromDev right cdf U rc) ∧ (∀ u ∈ res.2, U u)
+  | [], us, res, h, hU => by
+    simp only [genDss, Option.some.injEq] at h; subst h; exact ⟨by simp, hU⟩
+  | d :: dl, us, res, h, hU => by
+    simp only [genDss] at h
+    split at h
+    · exact absurd h (by simp)
+    · rename_i out us' hg
+      split at h
+      · exact absurd h (by simp)
+      · rename_i rest us'' hrest
+        simp only [Option.some.injEq] at h
+        subst h
+        obtain ⟨g1, g2⟩ := genShgs_from right cands cdf valid d U mrows hm _ us (out, us') hg hU
+        obtain ⟨r1, r2⟩ := genDss_from right cands cdf valid U mrows hm dl us' (rest, us'') hrest g2
+        refine ⟨?_, r2⟩
+        intro e he
+        rcases List.mem_cons.mp he with rfl | he
+        · exact g1
+        · exact r1 e he
+
+theorem generate_from (right : Bool) (cands : List Cand) (cdf : List F) (valid : Nat → Bool) (U : F → Prop)
+    (n : Nat) (us : List F) (nsig : Nat) (out : List (Nat × List (Nat × Cand))) (rest : List F)
+    (hU : ∀ u ∈ us, U u) (h : generate right cands cdf valid n us = some (nsig, out, rest)) :
+    ∀ e ∈ out, ∀ rc ∈ e.2, FromDev right cdf U rc := by
+  unfold generate at h
+  split_ifs at h with h1
+  split at h
+  · exact absurd h (by simp)
+  · rename_i mrows hm
+    split at h
+    · exact absurd h (by simp)
+    · rename_i o r hg
+      simp only [Option.some.injEq, Prod.mk.injEq] at h
+      obtain ⟨rfl, rfl, rfl⟩ := h
+      have hmr := drawRows_from right cands cdf U _ _ hm (fun u hu => hU u (List.mem_of_mem_take hu))
+      exact (genDss_from right cands cdf valid U mrows hmr _ _ (o, r) hg
+        (fun u hu => hU u (List.mem_of_mem_drop hu))).1
+
+end from_
+
+/-! ### the table fold -/
+
+theorem foldl_table {α β : Type} (f : α → Option (List β)) :
+    ∀ (l : List α) (a0 tab : List β),
+      l.foldl (tableStep f) (some a0) = some tab →
+      ∀ y ∈ tab, y ∈ a0 ∨ ∃ x ∈ l, ∃ t, f x = some t ∧ y ∈ t
+  | [], a0, tab, h, y, hy => by
+    simp only [List.foldl_nil, Option.some.injEq] at h; subst h; exact Or.inl hy
+  | x :: l, a0, tab, h, y, hy => by
+    simp only [List.foldl_cons] at h
+    cases hf : f x with
+    | none =>
+      have e : tableStep f (some a0) x = none := by simp [tableStep, hf]
+      rw [e] at h
+      exfalso
+      have : ∀ (l : List α), l.foldl (tableStep f) (none : Option (List β)) = none := by
+        intro l; induction l with
+        | nil => rfl
+        | cons z zs ih => simpa [List.foldl_cons, tableStep] using ih
+      rw [this] at h
+      exact absurd h (by simp)
+    | some t =>
+      have e : tableStep f (some a0) x = some (a0 ++ t) := by simp [tableStep, hf]
+      rw [e] at h
+      rcases foldl_table f l (a0 ++ t) tab h y hy with h1 | ⟨x', hx', t', ht', hyt⟩
+      · rcases List.mem_append.mp h1 with h1 | h1
+        · exact Or.inl h1
+        · exact Or.inr ⟨x, by simp, t, hf, h1⟩
+      · exact Or.inr ⟨x', List.mem_cons_of_mem _ hx', t', ht', hyt⟩
+
+
 end C18
